@@ -55,6 +55,21 @@ class C14(Oracle):
                 d = nd.next_event_date
                 if isinstance(d, bool) or not (d >= T):
                     self.fail("stopped-before-horizon", "returned from simulate_until_max_time(%r) with %r due at %r" % (T, nd, d))
+            for key, calls in R.log.samples.items():
+                if key[0] == "arr" and calls and not R.S.get("exact"):
+                    tot = calls[0][3]
+                    for c in calls[1:]:
+                        tot = tot + c[3]
+                    if tot < T:
+                        self.fail("due-arrival-not-executed", "stream %r has an arrival due at %r < horizon %r that was never executed" % (key[1:], tot, T))
+            for nd in sim.transitive_nodes:
+                for i in R.inds(nd):
+                    e = i.service_end_date
+                    if e is False or isinstance(e, (bool, str)) or i.is_blocked or i.interrupted:
+                        continue
+                    started = i.service_start_date is not False and not isinstance(i.service_start_date, str)
+                    if started and e < T:
+                        self.fail("due-service-end-not-executed", "ind %s at node %s is in service with end date %r < horizon %r" % (i.id_number, nd.id_number, e, T))
             if not (sim.current_time >= T):
                 self.fail("clock-before-horizon", "%r < %r" % (sim.current_time, T))
             for nd in sim.nodes[1:]:
